@@ -628,7 +628,7 @@ class HtmlTreeView(HtmlView):
             Html.element(
                 'div',
                 [
-                    title or make_title(value),
+                    title or Html.escape(make_title(value)),
                 ],
                 css_classes=['summary-title', css_classes],
             ),
@@ -1305,7 +1305,7 @@ class HtmlTreeView(HtmlView):
       class_name = f'{value.__name__}-class'
     else:
       class_name = type(value).__name__
-    return utils.camel_to_snake(class_name, '-')
+    return Html.escape(utils.camel_to_snake(class_name, '-'))
 
   @staticmethod
   def init_uncollapse(
